@@ -676,7 +676,14 @@ func runReduce(in input) vh.Result {
 
 func runMerge(in input) vh.Result {
 	p, s := unhex(in.P), unhex(in.S)
-	out := cluster.VerifC40MergeTerminalPayload(p, s)
+	out, panicked := func() (out []byte, panicked string) {
+		defer func() {
+			if r := recover(); r != nil {
+				panicked = fmt.Sprint(r)
+			}
+		}()
+		return cluster.VerifC40MergeTerminalPayload(p, s), ""
+	}()
 	pv := viewsOf(p)
 	class := "merge:"
 	switch {
@@ -691,9 +698,13 @@ func runMerge(in input) vh.Result {
 	default:
 		class += "inserted"
 	}
+	o := vh.Some(coqPayload(out))
+	if panicked != "" {
+		o, class = vh.None(), "merge:PANIC"
+	}
 	return vh.Result{
-		Coq:   vh.App("C40Merge", coqPayload(p), coqSnap(s), coqPayload(out)),
-		Obs:   map[string]any{"merged": string(out)},
+		Coq:   vh.App("C40Merge", coqPayload(p), coqSnap(s), o),
+		Obs:   map[string]any{"merged": string(out), "panic": panicked},
 		Class: class,
 	}
 }
@@ -993,16 +1004,31 @@ func runNode(in input) vh.Result {
 		var coqOp string
 		errC, resC := "ENone", vh.None()
 		var resJ any
+		panicJ := ""
 		prop.log = nil
 		switch op.K {
 		case "ev":
 			ev := op.Ev.real()
 			prop.failNext = op.Fail
 			sessionsBefore := node.CacheObservation().Sessions
-			res, err := node.Append(ctx, ev)
+			res, err, panicked := func() (res meta.MessageEventAppendResult, err error, panicked string) {
+				defer func() {
+					if r := recover(); r != nil {
+						panicked = fmt.Sprint(r)
+					}
+				}()
+				res, err = node.Append(ctx, ev)
+				return res, err, ""
+			}()
 			prop.failNext = false
 			coqOp = vh.App("NEv", coqEvent(ev), vh.B(op.Fail))
 			errC = errClass(err)
+			if panicked != "" {
+				// a panic inside the append path: recorded as an error class of its own
+				// (the monitor decides whether it matches a known-finding signature)
+				errC, err = "EPanic", errors.New("panic: "+panicked)
+				panicJ = panicked
+			}
 			if err == nil {
 				resC = vh.Some(coqResult(res))
 				resJ = map[string]any{"key": res.EventKey, "seq": res.MsgEventSeq, "status": res.Status}
@@ -1026,6 +1052,8 @@ func runNode(in input) vh.Result {
 						flags["maybe-evict"] = true
 					}
 				}
+			case "EPanic":
+				flags["PANIC"] = true
 			case "ECacheMiss":
 				flags["cache-miss"] = true
 			case "EBackpressured":
@@ -1094,7 +1122,7 @@ func runNode(in input) vh.Result {
 		}
 		sessions := node.CacheObservation().Sessions
 		steps = append(steps, vh.Pair(coqOp, vh.App("mkNodeObs", errC, resC, vh.List(props), vh.List(caches), vh.N(uint64(sessions)), vh.List(dumps))))
-		obsJSON = append(obsJSON, map[string]any{"err": errC, "result": resJ, "proposals": propsJ, "cache": cachesJ, "sessions": sessions, "tables": dumpsJ})
+		obsJSON = append(obsJSON, map[string]any{"err": errC, "panic": panicJ, "result": resJ, "proposals": propsJ, "cache": cachesJ, "sessions": sessions, "tables": dumpsJ})
 	}
 	return vh.Result{
 		Coq:     vh.App("C40Node", vh.N(uint64(in.MaxSessions)), vh.N(hashSlotCount), vh.List(chanHS), vh.List(steps)),
